@@ -338,7 +338,10 @@ func (k Keeper) UpdateLockedBorrows(ctx sdk.Context, updatedLockedVault types.Lo
 			updatedLockedVault.CurrentCollaterlisationRatio = collateralizationRatio
 			updatedLockedVault.CollateralToBeAuctioned = selloffAmount
 			k.SetLockedVault(ctx, updatedLockedVault)
-			k.SetLockedVaultID(ctx, updatedLockedVault.LockedVaultId)
+			// a second round on an older locked vault must not move the id counter backwards
+			if updatedLockedVault.LockedVaultId > k.GetLockedVaultID(ctx) {
+				k.SetLockedVaultID(ctx, updatedLockedVault.LockedVaultId)
+			}
 		}
 		// now the auction will be started from the auction module for the lockedVault
 
